@@ -60,7 +60,10 @@ def parts(tier):
     P = [dict(part="BN_P256", cfg="asan256", shards=5 if q else 6),
          dict(part="SM9_P256", cfg="asan256", shards=4 if q else 6),
          dict(part="plain256", cfg="asan256", shards=2 if q else 4),
-         dict(part="B12_P381", cfg="asan381", shards=5 if q else 6)]
+         dict(part="B12_P381", cfg="asan381", shards=5 if q else 6),
+         # alternative dispatch (FPX_METHD=BASIC;BASIC;BASIC: the macro-selected fpN mul/sqr/... are the _basic variants;
+         # EP add BASIC, so the sparse products, whose operand shapes are narrower there, are not exercised): reduced volume
+         dict(part="BN_P256", cfg="asan256x", shards=2)]
     if not q:
         for cfg in sorted(SWEEP):
             P.append(dict(part="sweep-" + cfg, cfg=cfg, shards=4 * len(SWEEP[cfg]) if cfg != "asan638" else 8))
@@ -184,6 +187,7 @@ HEAVY = {"exp": 0.35, "exp_cyc": 0.35, "exp_cyc_sim": 0.25, "exp_cyc_sps": 0.3, 
 #   fp54_frb indexes ctx->fp3_p2[2] (declared [2]) for every input; conv_cyc/test_cyc/pck/upk/exp/exp_dig call it
 FATAL_54 = {"frb", "conv_cyc", "test_cyc", "pck", "upk", "exp", "exp_dig", "exp_cyc", "exp_cyc_sps", "exp_cyc_sim"}
 FATAL_PARTS = ("BN_P256", "B12_P381")      # one part per configuration runs the directed fatal cases
+FATAL_CFGS = ("asan256", "asan381")
 
 # cases per run and degree (whole part, all shards together): quick, thorough
 COUNTS = {2: (9000, 200000), 3: (5000, 100000), 4: (4500, 90000), 6: (4500, 90000), 8: (3500, 70000),
@@ -525,7 +529,7 @@ def run_param(ctx, R, pname, nparams):
     ctx.note("functions_skipped_tower_absent_" + pname, sorted(absent_tower))
     if outside:
         ctx.note("functions_skipped_p_not_1_mod_6_" + pname, sorted(outside))
-    ctx.note("dispatch", {m: R.target(m) for m in R.macros if re.match(r"^fp\d+_(add|sub|dbl|mul|sqr|mul_nor|mul_dxs|sqr_cyc|sqr_pck)$", m)
+    ctx.note("dispatch_" + ctx.cfg, {m: R.target(m) for m in R.macros if re.match(r"^fp\d+_(add|sub|dbl|mul|sqr|mul_nor|mul_dxs|sqr_cyc|sqr_pck)$", m)
                           and R.has(m)})
 
     H = Handlers(T)
@@ -535,12 +539,12 @@ def run_param(ctx, R, pname, nparams):
     for d in sorted(flist):
         if "inv_sim" in flist[d]:
             k += 1
-            if pname in FATAL_PARTS and ctx.mine(k):
+            if pname in FATAL_PARTS and ctx.cfg in FATAL_CFGS and ctx.mine(k):
                 H.fatal_inv_sim_n0(d)
         if d == 54:
             if "frb" in flist[d]:
                 k += 1
-                if pname in FATAL_PARTS and ctx.mine(k):
+                if pname in FATAL_PARTS and ctx.cfg in FATAL_CFGS and ctx.mine(k):
                     H.fatal_fp54_frb()
             excluded += ["fp54_" + s for s in flist[d] if s in FATAL_54]
             flist[d] = [s for s in flist[d] if s not in FATAL_54]
@@ -606,6 +610,8 @@ def run_param(ctx, R, pname, nparams):
             n = ctx.n(q, t) // ctx.nshards
         else:
             n = ctx.n(q, t) // ctx.nshards // nparams
+            if ctx.cfg == "asan256x":
+                n = int(ctx.n(q, t) * 0.3) // ctx.nshards
         fl = flist[d]
         w = [HEAVY.get(s, 1.0) * (3.0 if (s in BIN and BIN[s] == "mul") or (s in UN and UN[s] == "sqr") or s in DXS else 1.0)
              for s in fl]
